@@ -18,8 +18,8 @@ import (
 type VerifCodec struct {
 	Src *am.Machine
 	S   *Server
-	T *sourceTracer
-	C *Client
+	T   *sourceTracer
+	C   *Client
 }
 
 // NewVerifCodec replicates what RemoteHello (server) and the client's
@@ -138,4 +138,25 @@ func (v *VerifCodec) SetMirror(t am.Time, q uint64, m uint32) {
 // client's tracked indexes into its own name list.
 func (v *VerifCodec) Tracked() ([]int, []int) {
 	return slices.Clone(v.T.trackedStateIdxs), slices.Clone(v.C.trackedStateIdxs)
+}
+
+// VerifPoint, when set, is called at named schedule / observation points of the
+// server (srv:push before a push is written, srv:reply after a mutation reply has
+// been computed and the export lock released) and of the client (cli:applied,
+// cli:mismatch, cli:synced).
+var VerifPoint func(who any, id string)
+
+func verifPoint(who any, id string) {
+	if f := VerifPoint; f != nil {
+		f(who, id)
+	}
+}
+
+// VerifLastPush returns what the server believes the client has (time sum of
+// the tracked states, queue tick).
+func VerifLastPush(s *Server) (uint64, uint64) {
+	if s.lastPushData == nil {
+		return 0, 0
+	}
+	return s.lastPushData.mTrackedTimeSum, s.lastPushData.queueTick
 }
